@@ -87,6 +87,10 @@ class Recorder(DispatcherObserver):
         self._maybe_unsubscribe()
 
 
+class TimedHistoryObserver(HistoryObserver):
+    """A user subclass of a singleton observer type."""
+
+
 class SubRecorder(Recorder):
     """A log-like observer: it has a length (the number of dispatches seen
     since the last reset), so it is falsy while its log is empty."""
@@ -204,6 +208,7 @@ def check_case(case, ctx):
             if model.complete():
                 continue
             obs.dispatcher_snapshot(d)  # warm every cache
+            hist_was_subscribed = hist is not None and any(hist[0] is x for x in expected_subs)
             ready = model.ready()
             j, p = ready[ev[1] % len(ready)]
             ms = inst["machines"][j][p]
@@ -247,7 +252,7 @@ def check_case(case, ctx):
                     f"{where}: inside update() raw ready {inside[9]}, unscheduled {inside[10]}, scheduled {inside[11]}; "
                     f"model ready {model.ready()}, scheduled {sorted(model.scheduled())}",
                 )
-            if hist is not None:
+            if hist is not None and hist_was_subscribed:
                 hist[1].append(want_sop)
             for x in recs:
                 intervals.setdefault(id(x), []).append(accepted)
@@ -275,7 +280,7 @@ def check_case(case, ctx):
             got = [(e[0], e[1]) for e in LOG]
             want = [(a, b) for (a, b, _c) in round_expectation("reset", None)]
             ctx.check(got == want, "reset-notifications", f"{where}: got {got} expected {want}")
-            if hist is not None:
+            if hist is not None and any(hist[0] is x for x in expected_subs):
                 del hist[1][:]
             n_resets += 1
             if rejected_after_accept:
@@ -338,6 +343,8 @@ def check_case(case, ctx):
             cands = [x for x in expected_subs if isinstance(x, Recorder)] + [
                 x for x in expected_subs if any(x is b for b in builtins)
             ]
+            if hist is not None and any(hist[0] is x for x in expected_subs):
+                cands.append(hist[0])
             if not cands:
                 continue
             o = cands[ev[1] % len(cands)]
@@ -345,7 +352,7 @@ def check_case(case, ctx):
             expected_subs[:] = [x for x in expected_subs if x is not o]
         elif kind == "sub":
             pool_ = []
-            for x in created + builtins:
+            for x in created + builtins + ([hist[0]] if hist is not None else []):
                 if not any(x is y for y in pool_):
                     pool_.append(x)
             cands = [x for x in pool_ if not any(x is y for y in expected_subs)]
@@ -356,6 +363,10 @@ def check_case(case, ctx):
             expected_subs.append(o)
         elif kind == "singleton":
             cls = HistoryObserver if ev[1] == 0 else UnscheduledOperationsObserver
+            if ev[1] == 0 and idx % 3 == 0:
+                cls = TimedHistoryObserver
+            # (the documented rule: refused if an instance of this class - or
+            # of a subclass of it - is subscribed)
             exists = any(isinstance(x, cls) for x in expected_subs)
             try:
                 o = cls(d, subscribe=ev[2])
@@ -369,7 +380,7 @@ def check_case(case, ctx):
                 )
                 if ev[2]:
                     expected_subs.append(o)
-                    if cls is HistoryObserver and hist is None:
+                    if issubclass(cls, HistoryObserver) and hist is None:
                         hist = (o, [])
         elif kind == "cog":
             typ = [Recorder, SubRecorder, HistoryObserver, UnscheduledOperationsObserver][ev[1]]
@@ -425,6 +436,25 @@ def check_case(case, ctx):
         subs_ok(where)
         history_ok(where)
         ctx.count("events")
+    # epilogue: the history observer sits out a reset and the replay of the
+    # episode's prefix, is subscribed again and sees the episode's last
+    # dispatch a second time (same operation, start and machine as the last
+    # entry it holds): every dispatch it is notified of is recorded
+    if hist is not None and any(hist[0] is x for x in expected_subs) and model.order:
+        seq = [(j, p, m) for (j, p, m, _s, _e) in model.order]
+        d.unsubscribe(hist[0])
+        d.reset()
+        model = ref(inst)
+        for j, p, m in seq[:-1]:
+            d.dispatch(instance.jobs[j][p], m)
+            model.apply(j, m)
+        d.subscribe(hist[0])
+        j, p, m = seq[-1]
+        d.dispatch(instance.jobs[j][p], m)
+        s_, _e = model.apply(j, m)
+        hist[1].append((fp.op(instance.jobs[j][p]), s_, m))
+        history_ok("epilogue (history observer re-subscribed after sitting out a reset)")
+        ctx.count("epilogues")
     distinct_intervals = {tuple(v) for v in intervals.values() if v}
     ctx.label(*gen.inst_labels(inst))
     ctx.nontrivial = (
